@@ -800,4 +800,24 @@ example : KeyWF (.dict [(.num (.int (.small 1)), .num (.float (.fin 1 1))), (.st
 example : totalEq (.dict [(.num (.int (.small 1)), .num (.float (.fin 1 1)))] none)
     (.dict [(.num (.rat 1), .num (.int (.small 2)))] none) = true := by decide +kernel
 
+/-! ## signed zeros in complex keys -/
+
+/-- a complex number whose imaginary part is `+0.0` OR `-0.0` (IEEE `== 0.0`, not `total_cmp`) is
+`==` to its real part and performs exactly the hasher writes of that real number -/
+theorem complex_zero_im_hash (re im : F64) (hre : re.isNan = false) (him : im.isNan = false)
+    (hz : im.ext = .fin 0) :
+    NNum.totalHash (.complex re im) = NNum.totalHash (.float re) ∧
+    NNum.totalEq (.complex re im) (.float re) = true := by
+  constructor
+  · simp only [NNum.totalHash, hre, him, Bool.or_self, Bool.false_eq_true, if_false, feq_zero im him, hz,
+      decide_true, if_true]
+  · have h1 : F64.feq re re = true := by simp [F64.feq, hre]
+    have h2 : F64.feq im (.fin 0 0) = true := by rw [feq_zero im him, hz]; simp
+    simp [NNum.totalEq, NNum.eq, NNum.projectToReals, NReal.eq, h1, h2]
+
+example : NNum.totalHash (.complex (.fin (-1) 0) .nzero) = NNum.totalHash (.int (.small (-1))) := by decide +kernel
+example : keyHit (.num (.int (.small (-1)))) (.num (.complex (.fin (-1) 0) .nzero)) = true := by decide +kernel
+example : keyHit (.list [.num (.float .nzero)]) (.list [.num (.complex .nzero .nzero)]) = true := by decide +kernel
+
+
 end Noulith.C09
